@@ -330,6 +330,68 @@ fn check_freshness(code: &[u8], limit: usize, two_paths: bool) -> Result<usize, 
     Ok(opaque)
 }
 
+/// Culled only when it really exceeds the limit: `CALLDATASIZE (DUP1 op)^k`, stored to `words` consecutive memory words and
+/// hashed over exactly those words. The expected node counts follow from the construction alone: a step yields
+/// 1 + 2s nodes from s (an opaque single node when that exceeds the limit), the hashed slice 1 + words x s, the hash one more.
+fn premature_programs() -> Vec<(String, Vec<u8>, usize, usize)> {
+    let mut v = Vec::new();
+    for (name, opc) in [("ADD", 0x01u8), ("MUL", 0x02)] {
+        for k in 0..=8usize {
+            for words in 1..=3usize {
+                let mut code = vec![0x36u8];
+                for _ in 0..k {
+                    code.extend([0x80, opc]);
+                }
+                for w in 0..words {
+                    code.extend([0x80, 0x60, (32 * w) as u8, 0x52]); // DUP1 PUSH1 off MSTORE
+                }
+                code.extend([0x50, 0x60, (32 * words) as u8, 0x5f, 0x20, 0x00]); // POP PUSH1 len PUSH0 SHA3 STOP
+                v.push((format!("hash of {words} memory word(s) holding CALLDATASIZE doubled {k} times with {name}"), code, k, words));
+            }
+        }
+    }
+    v
+}
+
+fn check_premature(code: &[u8], k: usize, words: usize, limit: usize, mem_bytes: Option<usize>) -> Result<bool, Verdict> {
+    let mut cfg = sle::vm::Config::default().with_value_size_limit(limit);
+    if let Some(m) = mem_bytes {
+        cfg = cfg.with_memory_max_bytes(m);
+    }
+    let out = match run_vm(code, cfg, lazy()) {
+        VmRun::Ran(o) => o,
+        _ => return Ok(false),
+    };
+    // expected sizes from the construction
+    let mut s = 1usize;
+    for _ in 0..k {
+        s = if 1 + 2 * s > limit { 1 } else { 1 + 2 * s };
+    }
+    let hash = 2 + words * s;
+    let expect_opaque = hash > limit;
+    let Some(st) = out.vm.stored_states().first() else { return Ok(false) };
+    let Ok(top_v) = st.stack().read(0) else { return Ok(false) };
+    let is_opaque = matches!(top_v.data(), RSVD::Value { .. });
+    if is_opaque && !expect_opaque {
+        return Err(Verdict {
+            key: "culled-below-the-limit".into(),
+            what: format!("the hash has {hash} nodes, the limit is {limit}, yet it was replaced by an opaque value"),
+        });
+    }
+    if !is_opaque {
+        let mut memo = Memo::new();
+        let mut bad = None;
+        let n = count_and_check(top_v, &mut memo, &mut bad);
+        if !expect_opaque && n != hash {
+            return Err(Verdict {
+                key: "culled-below-the-limit:inside".into(),
+                what: format!("the hash should have {hash} nodes (limit {limit}) but has {n}: {}", top(top_v)),
+            });
+        }
+    }
+    Ok(expect_opaque)
+}
+
 pub struct C18;
 
 fn limits(tier: Tier) -> Vec<usize> {
@@ -385,6 +447,23 @@ impl Check for C18 {
                 v
             };
             if chunk == extra {
+                for (desc, code, k, words) in premature_programs() {
+                    for limit in [1usize, 2, 3, 7, 50, 128, 250, 300, 394, 395, 396, 397, 500, 511, 512, 513, 1000] {
+                        for mem in [None, Some(96usize), Some(1_000_000)] {
+                            ctx.case(|| json!({"bytes": hex(&code), "limit": limit, "iterations": 1, "premature": [k, words], "mem_bytes": mem}));
+                            ctx.count("evaluations", 1);
+                            ctx.count("culled_only_above_the_limit_runs", 1);
+                            match check_premature(&code, k, words, limit, mem) {
+                                Ok(culled) => {
+                                    if !culled {
+                                        ctx.distinct("nontrivial", crate::util::h64(&(&code, limit, mem, "premature")));
+                                    }
+                                }
+                                Err(v) => ctx.violation(v.key, format!("{} [{desc} = {}; memory operation limit {mem:?}]", v.what, hex(&code)), json!({"bytes": hex(&code), "limit": limit, "iterations": 1, "premature": [k, words], "mem_bytes": mem})),
+                            }
+                        }
+                    }
+                }
                 for (desc, code, two_paths) in freshness_programs() {
                     for limit in [1usize, 2, 3, 5, 8] {
                         ctx.case(|| json!({"bytes": hex(&code), "limit": limit, "iterations": 6, "freshness": true, "two_paths": two_paths}));
@@ -467,7 +546,7 @@ impl Check for C18 {
              limits 2, 4, 6, 250. For every stored state: every stack item, memory \
              content/offset, storage key/written value, recorded and logged value has <= limit nodes, and every node of every value \
              (also of the exported view, after lifting, and after constant folding) reports size() = its recursive node count. \
-             Freshness: in accumulating loops and two-path programs over MUL / ADD / EXP / XOR (every stack position holds a different quantity) no two opaque stand-ins of a final state, and no two path tops, are the same value. \
+             Culled only above the limit: CALLDATASIZE doubled 0..8 times with ADD / MUL, stored to 1..3 memory words and hashed, under 17 size limits (1 .. 1000, around 250, 394 and 512) x 3 single-memory-operation limits: the hash is an opaque value exactly when its node count (known from the construction) exceeds the limit, and has exactly that node count otherwise. Freshness: in accumulating loops and two-path programs over MUL / ADD / EXP / XOR (every stack position holds a different quantity) no two opaque stand-ins of a final state, and no two path tops, are the same value. \
              non-trivial = a run in which some value was actually culled; distinct by (program, limit, iterations)",
             max_len(tier),
             limits(tier)
@@ -486,6 +565,20 @@ impl Check for C18 {
         let limit = c["limit"].as_u64().unwrap() as usize;
         let iterations = c["iterations"].as_u64().unwrap() as usize;
         println!("code: {} limit={limit} iterations={iterations}", hex(&code));
+        if c.get("premature").map(|p| p.is_array()).unwrap_or(false) {
+            let k = c["premature"][0].as_u64().unwrap() as usize;
+            let words = c["premature"][1].as_u64().unwrap() as usize;
+            return match check_premature(&code, k, words, limit, c["mem_bytes"].as_u64().map(|m| m as usize)) {
+                Ok(_) => {
+                    println!("observed: culled exactly when the limit is exceeded");
+                    false
+                }
+                Err(v) => {
+                    println!("observed: {}: {}", v.key, v.what);
+                    true
+                }
+            };
+        }
         if c["freshness"] == true {
             return match check_freshness(&code, limit, c["two_paths"] == true) {
                 Ok(n) => {
